@@ -27,3 +27,18 @@ func VerifLazyState(p Packet) (isLazy bool, numLayers int, hasNext bool, link, n
 	}
 	return true, len(lp.layers), lp.next != nil, lp.link != nil, lp.network != nil, lp.transport != nil, lp.application != nil, lp.failure != nil, lp.metadata.Truncated
 }
+
+// VerifLazyStep drives exactly one decode step of a lazy packet (it calls the
+// packet's own decodeNextLayer, nothing else) and reports whether a step was
+// pending. Used by the C03 harness to read the step-by-step shape of a decode.
+func VerifLazyStep(p Packet) bool {
+	if pp, ok := p.(*pooledPacket); ok {
+		p = pp.Packet
+	}
+	lp, ok := p.(*lazyPacket)
+	if !ok || lp.next == nil {
+		return false
+	}
+	lp.decodeNextLayer()
+	return true
+}
